@@ -87,15 +87,52 @@ from . import combos as _combos
 
 # feature pairs that run into recorded defects (F7, F10, F13) and are swept only where that finding is listed
 _F7 = [{"sc_resume", x} for x in ("block", "block1", "selfloop", "loop")]
-_F10 = [{r, x} for r in ("renege", "jockey") for x in ("pre_resume", "pre_restart", "pre_resample")]
+_F10 = [{r, x} for r in ("renege", "jockey", "jockeyfull", "renege2") for x in ("pre_resume", "pre_restart", "pre_resample")]
 _F13 = [{r, x} for r in ("selfloop", "loop") for x in ("pre_reroute", "sc_reroute")]
 # blocking together with pre-emption is outside C07 / C11 (and makes interrupted blocked customers)
 _BLOCKPRE = [{b, x} for b in ("block", "block1", "selfloop", "loop") for x in ("pre_resume", "pre_restart", "pre_resample", "pre_reroute", "sc_resume", "sc_restart", "sc_resample", "sc_reroute", "slcap")]
 
 
-def combo_rows(K, include=None, exclude=(), skip=(), allow=(), mons=None, K2=None, extra=None):
+_KTABLE = None
+CAPS = {"quick": (500, 400), "thorough": (4000, 3000)}   # path caps per sweep row: (ties=forced, ties=all)
+_TIER = "quick"
+
+
+def set_tier(t):
+    global _TIER
+    _TIER = t
+
+
+def _ktable():
+    global _KTABLE
+    if _KTABLE is None:
+        import json
+        import os
+        p = os.path.join(os.path.dirname(os.path.abspath(__file__)), "combo_k.json")
+        _KTABLE = json.load(open(p)) if os.path.exists(p) else {}
+    return _KTABLE
+
+
+def budget_K(params, ties, Kmax, cap=None):
+    """largest K <= Kmax whose measured path count (tools/calibrate.py, committed table) is under the tier's cap"""
+    from .runner import cfg_id
+    t = _ktable().get(cfg_id(("GEN", params)), {}).get(ties)
+    cap = cap or CAPS[_TIER][0 if ties == "forced" else 1]
+    if not t:
+        return min(Kmax, 4)
+    best = 3
+    for k, n in sorted(((k, n) for k, n in t.items() if k.isdigit()), key=lambda kv: int(kv[0])):
+        if 0 <= n <= cap and int(k) <= Kmax:
+            best = int(k)
+    if best == 3 and t.get("3", 0) > 3 * cap:
+        return None   # even three events exceed the budget of this tier: the row is left to the deeper tier
+    return best
+
+
+def combo_rows(K, include=None, exclude=(), skip=(), allow=(), mons=None, extra=None, ties="forced", raw=False, cap=None):
     """GEN rows for single features and feature pairs; `include`: at least one feature of the pair is in this set;
-    `exclude`: features never used; `skip`: pairs (sets) left out; two-class combinations get the lighter load"""
+    `exclude`: features never used; `skip`: pairs (sets) left out; K is an upper limit, the row's K comes from the
+    committed path-count table so that no sweep row exceeds the tier's path cap"""
     out = []
     skip = [set(x) for x in skip]
     allow = [set(x) for x in allow]
@@ -105,22 +142,25 @@ def combo_rows(K, include=None, exclude=(), skip=(), allow=(), mons=None, K2=Non
         if bad or any(x <= fset for x in skip):
             continue
         p = dict(params)
-        two = p.get("classes", 1) > 1
-        k = K
-        if two:
+        if p.get("classes", 1) > 1:
             p["burst"] = 1
             p["first"] = 2
-            if p.get("ccwait"):
-                k = K - 1
-        if K2 is not None and two:
-            k = min(k, K2)
         if extra:
             p.update(extra)
+        k = K if raw else budget_K(p, ties, K, cap)
+        if k is None:
+            continue
         r = row("GEN", k, **p)
+        r["ties"] = ties
         if mons:
             r["mons"] = mons
         out.append(r)
     return out
+
+
+def tie_combo_rows(K, include, **kw):
+    """the same feature pairs with every date coincidence explored (ties=all)"""
+    return combo_rows(K, include=include, ties="all", **kw)
 
 
 CORE = "Simulation.event_and_return_nextnode find_next_active_node simulate_until_max_time ArrivalNode.have_event release_individual decide_baulk send_individual Node.accept release finish_service block_individual release_blocked_individual begin_service_if_possible_accept/_release/_change_shift update_next_event_date decide_next_event write_*_record ExitNode.accept".split(" ")
@@ -133,15 +173,23 @@ def prop(pid, **kw):
     PROPS[pid] = kw
 
 
+def Z0(K):
+    """time-zero row: inter-arrival samples >= 0, so arrivals (and whole deadlocks) at exactly t = 0 are inside the claim"""
+    return [row("Q1", K, c=1, pos=False), row("Q1", K, c=2, pos=False, first=2), row("SL", K, pos=False, first=2), row("SL", K, pos=False, capacitated=True, pre="resume", first=2),
+            row("PS", K, pos=False, capacity=1, first=2), row("PS", K, pos=False), row("S1", K, pos=False, p=0.5)]
+
+
 # C01 ------------------------------------------------------------------------------------------------
 prop("C01", mons=["C01"],
      quick=lambda: plain(5) + blocking(5) + priorities(5) + preemption(5) + schedules(5) + slotted(4) + reneging(5) + baulking(4)
      + classchange(5) + routing(5) + ps(5) + with_ties([row("Q1", 5, c=1), row("T2", 5), row("L2", 4, first=[2, 2], burst=1), row("RN", 5)])
-     + combo_rows(5, include={"renege", "jockey", "pre_reroute", "sc_reroute", "batch", "baulk", "ccwait", "ps", "slcap", "selfloop", "loop", "jsq"}),
+     + combo_rows(5, include={"renege", "jockey", "jockeyfull", "renege2", "pre_reroute", "sc_reroute", "batch", "baulk", "ccwait", "ps", "slcap", "selfloop", "loop", "jsq"})
+     + tie_combo_rows(4, {"renege", "jockeyfull", "pre_reroute", "batch", "sc_reroute"}),
      thorough=lambda: bump(plain(5) + blocking(5) + priorities(5) + preemption(5) + schedules(5) + slotted(4) + reneging(5) + baulking(4)
                            + classchange(5) + routing(5) + ps(5), 1)
      + with_ties(plain(5) + blocking(5) + priorities(5) + preemption(5) + schedules(5) + reneging(5) + routing(5) + ps(5), -1)
-     + combo_rows(6),
+     + combo_rows(6)
+     + tie_combo_rows(5, {"renege", "jockey", "jockeyfull", "renege2", "pre_reroute", "batch", "sc_reroute", "baulk", "slcap"}),
      vacuity=["c01_in_nodes", "c01_at_exit"],
      functions=CORE + ["Node.renege", "Node.reroute", "Node.preempt", "Node.change_priority_queue", "PSNode.*", "Node.slotted_service", "Node.change_shift"])
 
@@ -151,13 +199,15 @@ prop("C02", mons=["C02"],
      + classchange(5) + routing(4) + ps(5) + [row("SC", 7, pre="resume", blocked=True), row("SC", 6, pre="restart", blocked=True),
                                                row("RN", 4, prio=True, pre="resume"), row("T2", 5, prio=True)]
      + with_ties([row("Q1", 5, c=1), row("T2", 5), row("RN", 5), row("SC", 5)])
-     + combo_rows(5, include={"sc", "sc_resume", "sc_restart", "sc_resample", "sc_reroute", "sl", "slcap", "renege", "jockey", "ps", "offset", "pre_resume", "pre_restart"}, allow=_F7 + _F10),
+     + combo_rows(5, include={"sc", "sc_resume", "sc_restart", "sc_resample", "sc_reroute", "sl", "slcap", "renege", "jockey", "ps", "offset", "pre_resume", "pre_restart"}, allow=_F7 + _F10)
+     + tie_combo_rows(4, {"renege", "sc", "sl", "pre_resume"}, allow=_F7 + _F10) + Z0(4),
      thorough=lambda: bump(plain(5) + blocking(5) + priorities(5) + preemption(5) + schedules(5) + slotted(4) + reneging(5) + baulking(4)
                            + classchange(5) + routing(4) + ps(5), 1)
      + [row("SC", 8, pre="resume", blocked=True), row("SC", 7, pre="restart", blocked=True), row("SC", 7, pre="resample", blocked=True),
         row("SC", 7, pre="reroute", blocked=True), row("RN", 5, prio=True, pre="resume"), row("RN", 5, prio=True, pre="restart"), row("T2", 6, prio=True)]
      + with_ties(plain(5) + blocking(5) + priorities(5) + preemption(5) + schedules(5) + reneging(5) + ps(5), -1)
-     + combo_rows(6, allow=_F7 + _F10),
+     + combo_rows(6, allow=_F7 + _F10)
+     + tie_combo_rows(5, {"renege", "jockey", "sc", "sc_resume", "sc_restart", "sl", "slcap", "pre_resume", "pre_restart", "ps"}, allow=_F7 + _F10) + Z0(6) + with_ties(Z0(4), 0),
      vacuity=["c02_service_records", "c02_interrupted_records", "c02_renege_records", "c02_terminal_records"],
      functions=CORE + ["Node.get_reneging_date", "Node.give_service_time_after_preemption", "Node.interrupt_service", "Node.begin_interrupted_individuals_service", "Node.wrap_up_servers"])
 
@@ -166,10 +216,12 @@ prop("C03", mons=["C03"],
      quick=lambda: plain(5) + blocking(5) + preemption(5) + schedules(5, (False, "resume", "reroute")) + reneging(5) + baulking(4)
      + classchange(5) + routing(5) + [row("SC", 6, pre="reroute", blocked=True), row("SC", 7, pre="resume", blocked=True, burst=3), row("SC", 7, pre="restart", blocked=True, burst=3),
                                       row("T2", 6, prio=True, c1=2, first=2, burst=1)] + with_ties([row("T2", 5), row("RN", 5, jockey=True)])
-     + combo_rows(5, include={"pre_reroute", "sc_reroute", "sc_resume", "renege", "jockey", "baulk", "block", "ccafter", "jsq", "slcap"}),
+     + combo_rows(5, include={"pre_reroute", "sc_reroute", "sc_resume", "renege", "jockey", "baulk", "block", "ccafter", "jsq", "slcap"})
+     + with_ties(preemption(5), -1) + tie_combo_rows(4, {"pre_reroute", "sc_reroute", "renege", "jockey"}),
      thorough=lambda: bump(plain(5) + blocking(5) + preemption(5) + schedules(5) + reneging(5) + baulking(4) + classchange(5) + routing(5), 1)
      + with_ties(blocking(5) + preemption(5) + reneging(5) + routing(5), -1)
-     + combo_rows(6),
+     + combo_rows(6)
+     + with_ties(preemption(5), 0) + tie_combo_rows(5, {"pre_reroute", "sc_reroute", "sc_resume", "renege", "jockey", "jockeyfull", "baulk", "block"}),
      vacuity=["c03_customers", "c03_chained"],
      functions=CORE + ["Node.write_individual_record", "Node.write_interruption_record", "Node.write_reneging_record", "Node.write_baulking_or_rejection_record", "Node.reset_individual_attributes", "Node.reroute"])
 
@@ -198,11 +250,13 @@ prop("C05", mons=["C05"],
         row("SC", 5, pre="resume", values=[2, 2], bounds=[1, 3], first=2), row("SC", 5, pre="restart", values=[2, 1, 3], bounds=[1, 2, 3], first=3),
         row("SC", 5, pre="resample", values=[3, 0, 3], bounds=[1, 2, 3], first=3), row("SC", 8, pre="restart", blocked=True, burst=3)]
      + with_ties([row("Q1", 5, c=2), row("T2", 5), row("SC", 5, pre="resume")])
-     + combo_rows(5, include={"c2", "sc", "sc_resume", "sc_restart", "sc_resample", "pre_resume", "pre_restart", "renege", "ccwait", "lifo", "siro", "block"}, exclude=("ps", "cinf", "sl", "slcap")),
+     + combo_rows(5, include={"c2", "sc", "sc_resume", "sc_restart", "sc_resample", "pre_resume", "pre_restart", "renege", "ccwait", "lifo", "siro", "block"}, exclude=("ps", "cinf", "sl", "slcap"))
+     + tie_combo_rows(4, {"sc_resume", "renege", "pre_resume", "block"}),
      thorough=lambda: bump(plain(5) + blocking(5) + priorities(5) + preemption(5) + schedules(5) + reneging(5) + classchange(5), 1)
      + [row("Q1", 6, c=1, discipline="SIRO", first=2), row("RN", 5, blockedinto=True)]
      + with_ties(plain(5) + blocking(5) + preemption(5) + schedules(5) + reneging(5), -1)
-     + combo_rows(6, exclude=("ps", "cinf", "sl", "slcap")),
+     + combo_rows(6, exclude=("ps", "cinf", "sl", "slcap"))
+     + tie_combo_rows(5, {"c2", "sc", "sc_resume", "sc_restart", "pre_resume", "pre_restart", "renege", "block", "lifo"}, exclude=("ps", "cinf", "sl", "slcap")),
      vacuity=["c05_zero_wait", "c05_waiting_seen", "c05_start_on_freed_server"],
      functions=["Node.begin_service_if_possible_accept", "Node.begin_service_if_possible_release", "Node.begin_service_if_possible_change_shift", "Node.begin_interrupted_individuals_service", "Node.choose_next_customer", "Node.change_customer_class_while_waiting"] + CORE)
 
@@ -233,9 +287,11 @@ def c07_rows(K):
 
 prop("C07", mons=["C07"],
      quick=lambda: c07_rows(5) + with_ties([row("T2", 5), row("T2", 5, c1=3, first=3, burst=1), row("L2", 4), row("S1", 5)])
-     + combo_rows(5, include={"block", "block1", "selfloop", "loop"}, skip=_BLOCKPRE),
+     + combo_rows(5, include={"block", "block1", "selfloop", "loop"}, skip=_BLOCKPRE)
+     + [dict(row("RN", 5, blockedinto=True, c=2, cap2=2, first=3, first1=2, burst=1), ties="all")] + tie_combo_rows(4, {"block", "block1"}, skip=_BLOCKPRE),
      thorough=lambda: bump(c07_rows(5), 1) + with_ties(c07_rows(5), -1)
-     + combo_rows(6, include={"block", "block1", "selfloop", "loop"}, skip=_BLOCKPRE),
+     + combo_rows(6, include={"block", "block1", "selfloop", "loop"}, skip=_BLOCKPRE)
+     + [dict(row("RN", 6, blockedinto=True, c=2, cap2=2, first=3, first1=2, burst=1), ties="all"), dict(row("RN", 6, blockedinto=True, c=3, cap2=3, first=4, first1=3, burst=1), ties="all")] + tie_combo_rows(5, {"block", "block1", "selfloop", "loop"}, skip=_BLOCKPRE),
      vacuity=["c07_blockages", "c07_unblockings", "c07_blocked_seen"],
      functions=["Node.finish_service", "Node.block_individual", "Node.release", "Node.release_blocked_individual", "Node.update_next_end_service_with_server", "Node.renege"])
 
@@ -304,9 +360,11 @@ def c11_rows(K):
 
 prop("C11", mons=["C11"],
      quick=lambda: c11_rows(5) + with_ties([row("P1", 5, c=1, pre="resume"), row("P1", 4, c=2, pre="restart")])
-     + combo_rows(5, include={"pre_resume", "pre_restart", "pre_resample", "pre_reroute"}, exclude=("ccafter", "sc_resume", "sc_restart", "sc_resample", "sc_reroute"), skip=_BLOCKPRE),
+     + combo_rows(5, include={"pre_resume", "pre_restart", "pre_resample", "pre_reroute"}, exclude=("ccafter", "sc_resume", "sc_restart", "sc_resample", "sc_reroute"), skip=_BLOCKPRE)
+     + [row("P1", 6, c=2, pre="resume", discipline="LIFO", first=2), row("P1", 4, c=2, pre="resample", discipline="SIRO", first=2)] + [r for r in combo_rows(5, include={"pre_resume", "pre_restart", "pre_resample", "pre_reroute"}, exclude=("ccafter", "sc_resume", "sc_restart", "sc_resample", "sc_reroute", "c2", "cinf", "ps", "sc", "sl", "slcap", "offset"), skip=_BLOCKPRE, extra={"c1": 2}) if r["cfg"][1].get("discipline") or r["cfg"][1].get("ccwait") or r["cfg"][1].get("batch")],
      thorough=lambda: bump(c11_rows(5), 1) + with_ties(c11_rows(5), -1)
-     + combo_rows(6, include={"pre_resume", "pre_restart", "pre_resample", "pre_reroute"}, exclude=("ccafter", "sc_resume", "sc_restart", "sc_resample", "sc_reroute"), skip=_BLOCKPRE),
+     + combo_rows(6, include={"pre_resume", "pre_restart", "pre_resample", "pre_reroute"}, exclude=("ccafter", "sc_resume", "sc_restart", "sc_resample", "sc_reroute"), skip=_BLOCKPRE)
+     + [row("P1", 6, c=2, pre="resume", discipline="LIFO", first=2), row("P1", 6, c=2, pre="restart", discipline="LIFO", first=2), row("P1", 5, c=2, pre="resample", discipline="SIRO", first=2)] + [r for r in combo_rows(5, include={"pre_resume", "pre_restart", "pre_resample", "pre_reroute"}, exclude=("ccafter", "sc_resume", "sc_restart", "sc_resample", "sc_reroute", "c2", "cinf", "ps", "sc", "sl", "slcap", "offset"), skip=_BLOCKPRE, extra={"c1": 2}) if r["cfg"][1].get("discipline") or r["cfg"][1].get("ccwait") or r["cfg"][1].get("batch")],
      vacuity=["c11_preemptions", "c11_victim_choice", "c11_wait_and_serve", "c11_resume_completed", "c11_restart_completed", "c11_resample_completed"],
      functions=["Node.decide_preempt", "Node.preempt", "Node.give_individual_a_service_time", "Node.give_service_time_after_preemption", "Node.reroute"])
 
@@ -324,24 +382,28 @@ def c12_units():
 
 prop("C12", mons=["C12"],
      quick=lambda: c12_rows(5) + c12_units() + with_ties([row("SC", 5), row("SC", 5, pre="resume"), row("SL", 5)])
-     + combo_rows(5, include={"sc", "sc_resume", "sc_restart", "sc_resample", "sc_reroute", "sl", "slcap", "offset"}),
+     + combo_rows(5, include={"sc", "sc_resume", "sc_restart", "sc_resample", "sc_reroute", "sl", "slcap", "offset"})
+     + [row("SC", 9, pre="resample", blocked=True, burst=3), row("SC", 9, pre="restart", blocked=True, burst=3), row("SC", 7, blocked=True, burst=3)],
      thorough=lambda: bump(c12_rows(5), 2) + c12_units() + with_ties(c12_rows(5), 0)
-     + combo_rows(7, include={"sc", "sc_resume", "sc_restart", "sc_resample", "sc_reroute", "sl", "slcap", "offset"}),
+     + combo_rows(7, include={"sc", "sc_resume", "sc_restart", "sc_resample", "sc_reroute", "sl", "slcap", "offset"})
+     + [row("SC", 9, pre="resample", blocked=True, burst=3), row("SC", 9, pre="restart", blocked=True, burst=3), row("SC", 7, blocked=True, burst=3)],
      vacuity=["c12_onduty_checks", "c12_shift_changes", "c12_overtime_services", "c12_shift_interruptions", "c12_interrupted_restarts", "c12_slots", "c12_slot_starts", "c12_unit_shifts", "c12_unit_slots"],
      functions=["Schedule.initialise", "Schedule.get_schedule_generator", "Schedule.get_next_shift", "Slotted.*", "Node.change_shift", "Node.take_servers_off_duty", "Node.add_new_servers", "Node.kill_server", "Node.begin_service_if_possible_change_shift", "Node.begin_interrupted_individuals_service", "Node.slotted_service", "Node.find_number_of_slotted_services", "Node.interrupt_slotted_services"])
 
 # C13 ------------------------------------------------------------------------------------------------
 def c13_rows(K):
     return reneging(K) + baulking(K) + [row("RN", K - 1, blockedinto=True), row("RN", K - 1, prio=True, pre="resume"), row("BK", K, kind="sym", cap_=1, first=2),
-                                        row("SL", K, reneging=True, first=2), row("SL", K, reneging=True, capacitated=True, first=3), row("RN", K, blockedinto=True, first=2, burst=2),
+                                        row("SL", K - 1, reneging=True, first=2), row("SL", K - 1, reneging=True, capacitated=True, first=3), row("RN", K, blockedinto=True, first=2, burst=2),
                                         row("RN", K, syscap=2)]
 
 
 prop("C13", mons=["C13"],
      quick=lambda: c13_rows(5) + with_ties([row("RN", 5), row("RN", 5, jockey=True), row("BK", 4, kind="sym")])
-     + combo_rows(5, include={"renege", "jockey", "baulk"}, allow=_F10),
+     + combo_rows(5, include={"renege", "jockey", "jockeyfull", "renege2", "baulk"}, allow=_F10)
+     + tie_combo_rows(4, {"renege", "jockey"}, allow=_F10),
      thorough=lambda: bump(c13_rows(5), 1) + with_ties(c13_rows(5), -1)
-     + combo_rows(6, include={"renege", "jockey", "baulk"}, allow=_F10),
+     + combo_rows(6, include={"renege", "jockey", "jockeyfull", "renege2", "baulk"}, allow=_F10)
+     + tie_combo_rows(5, {"renege", "jockey", "jockeyfull", "renege2", "baulk"}, allow=_F10),
      vacuity=["c13_reneges", "c13_jockeys", "c13_waiting_with_patience", "c13_baulks", "c13_joins"],
      functions=["Node.get_reneging_date", "Node.update_next_renege_time", "Node.decide_next_event", "Node.renege", "ArrivalNode.decide_baulk"])
 
@@ -358,7 +420,8 @@ def mc_rows(K):
 
 def c14_rows(K):
     base = plain(K) + blocking(K) + priorities(K) + preemption(K) + schedules(K) + slotted(K - 1) + reneging(K) + baulking(K - 1) + classchange(K) + routing(K - 1) + ps(K)
-    return base + mc_rows(K) + [row("CCw", K - 1, nodes=2), row("CCw", K - 1, nodes=2, prio=True, pre="restart", burst=2), row("SC", K + 1, blocked=True, pre="restart")]
+    return base + mc_rows(K) + [row("CCw", K - 1, nodes=2), row("CCw", K - 1, nodes=2, prio=True, pre="restart", burst=2), row("SC", K + 1, blocked=True, pre="restart"),
+                                row("DL", K - 1, base="S1", pos=False, p=1.0, c=1, cap_=0), row("Q1", K - 1, c=1, pos=False), row("S1", K - 1, pos=False, p=0.5)]
 
 
 prop("C14", mons=["C14"], exc_is_violation=True,
